@@ -39,7 +39,7 @@ RemoveLastOnTrace(rec) ==
             => BaseSet(rec) \subseteq Gone(rec.events, p - 1, "src")
 
 AllPlain(rec) == \A i \in 1..Len(rec.in.shapes) : rec.in.shapes[i] = "plain"
-HasOutside(rec) == \E i \in 1..Len(rec.in.shapes) : rec.in.shapes[i] \in {"dotdot", "abs"}
+HasOutside(rec) == \E i \in 1..Len(rec.in.shapes) : rec.in.shapes[i] \in {"dotdot", "abs", "dot", "dotdot1", "slash"}   \* ("." ".." "/": directories, not files of the upload)
 HasSub(rec) == \E i \in 1..Len(rec.in.shapes) : rec.in.shapes[i] = "sub"
 Faulted(rec) == rec.in.fault.kind \notin {"none", "stale", "xdev"}     \* a stale destination file is not a failure; a
                                         \* destination on another filesystem is not one either, but a MOVE may refuse it
